@@ -211,6 +211,20 @@ func (w *Writer) Finish() {
 	}
 }
 
+// FlushWriter is a Writer that also offers http.Flusher, the way net/http's own writer does: a flush commits status
+// and headers as they are at that moment. The plain Writer offers nothing beyond http.ResponseWriter.
+type FlushWriter struct{ *Writer }
+
+func (w *FlushWriter) Flush() {
+	if !w.Sent {
+		w.WriteHeader(200)
+	}
+}
+
+// Mounted, when set, is what a handler step "Mount" hands the request to: another http.Handler (typically a
+// second router) serving the same request with the writer the outer handler was given.
+var Mounted http.Handler
+
 // Nested, when set, is what a handler step "Nest" does: typically it serves another request on the same
 // server while the outer request is still alive.
 var Nested func()
@@ -230,7 +244,9 @@ func Call(w http.ResponseWriter, r *http.Request, route types.Route, h *H) {
 		o = &Obs{}
 	}
 	o.Called++
-	if _, ok := w.(*Writer); !ok {
+	switch w.(type) {
+	case *Writer, *FlushWriter:
+	default:
 		o.WIsHead = true
 	}
 	o.Path = r.URL.Path
@@ -342,6 +358,16 @@ func run(w http.ResponseWriter, r *http.Request, o *Obs, h *H) {
 				if vs := w.Header()[s.K]; len(vs) > 0 {
 					vs[0] = s.V
 				}
+			case "Flush": // a careful handler: flushes only through what the writer offers
+				if fl, ok := w.(http.Flusher); ok {
+					fl.Flush()
+				} else {
+					http.NewResponseController(w).Flush() // follows Unwrap() chains; "not supported" is not an error worth acting on
+				}
+			case "Mount":
+				if Mounted != nil {
+					Mounted.ServeHTTP(w, r)
+				}
 			case "Panic":
 				panic("harness: handler program panics")
 			case "Nest":
@@ -363,6 +389,7 @@ type Req struct {
 	Header  map[string]string
 	Multi   map[string][]string // further field lines of a header (a list header may be spread over several lines)
 	Gone    bool                // the request's context is already cancelled (the client went away)
+	Flusher bool                // the server's writer offers http.Flusher (net/http's does; many wrappers do not)
 	Fault   *Fault
 }
 
@@ -437,6 +464,10 @@ func Serve(s http.Handler, q Req) *Obs {
 	o := &Obs{}
 	w := NewWriter()
 	r := NewRequest(q, o)
+	var rw http.ResponseWriter = w
+	if q.Flusher {
+		rw = &FlushWriter{w}
+	}
 	func() {
 		defer func() {
 			if e := recover(); e != nil {
@@ -444,7 +475,7 @@ func Serve(s http.Handler, q Req) *Obs {
 				o.Panic = e
 			}
 		}()
-		s.ServeHTTP(w, r)
+		s.ServeHTTP(rw, r)
 	}()
 	if !o.Paniced {
 		w.Finish()
